@@ -145,6 +145,11 @@ func init() {
 						fns = append(fns, PFunc{fi.Fn, true, false})
 					}
 					e.AddFeature(uint(2*ti+2), t, model.RoleTypeServer, fns...)
+					// an entity may carry several features of one type and role
+					if w.T.Bool(1, 3, "twin-features") {
+						e.AddFeature(uint(100+2*ti+1), t, model.RoleTypeClient)
+						e.AddFeature(uint(100+2*ti+2), t, model.RoleTypeServer, fns...)
+					}
 				}
 				d.peers = append(d.peers, p)
 				p.Connect()
@@ -211,6 +216,11 @@ func (d *c01Data) genRequest(w *World, p *Peer, servers, clients []*LFeat) *c01R
 	ti := w.T.Choose(len(servers), "target-type")
 	sf, cfL := servers[ti], clients[ti]
 	pClient, pServer := ents.Feature(uint(2*ti+1)), ents.Feature(uint(2*ti+2))
+	if tc, ts := ents.Feature(uint(100+2*ti+1)), ents.Feature(uint(100+2*ti+2)); tc != nil && ts != nil && w.T.Bool(1, 2, "request-from-twin-feature") {
+		// the second feature of the same type and role is the sender
+		pClient, pServer = tc, ts
+		w.Probe("c01-request-from-second-feature-of-same-type-and-role")
+	}
 	r := &c01Req{peer: p, dstOK: true}
 	switch w.T.Choose(3, "ack") {
 	case 1:
